@@ -297,5 +297,6 @@ UB:
 			break UB
 		}
 	}
+	verifYield(4)
 	usagedone <- true
 }
